@@ -49,7 +49,7 @@ def check(tier):
         except Exception as e:  # noqa: BLE001
             fails.append({"clause": "term-predicates-never-raise", "detail": f"terms_are_like(`{ta}`,`{tb}`) raised {type(e).__name__}"})
     # ---- has_like_terms: invariant under reordering and regrouping
-    alphabet = ["x", "2x", "y", "4x^2", "x^2", "-3y", "7", "z", "5", "2xy", "x^y", "x^2 * y^3"]
+    alphabet = ["x", "2x", "y", "4x^2", "x^2", "-3y", "7", "z", "5", "2xy", "x^y", "x^2 * y^3", "sgn(x)", "abs(y)", "3!", "-(x)"]
     maxk = 3 if tier == "quick" else 4
     for k in range(2, maxk + 1):
         for combo in itertools.combinations_with_replacement(alphabet, k):
